@@ -134,7 +134,10 @@ func (r *RestSnapshotStore) GetSnapshot(version uint64) (*protocol.SignedSnapsho
 	var s protocol.SignedSnapshot
 	err = s.Decode(buf)
 	if err != nil {
-		return nil, fmt.Errorf("Error decoding signed snapshot %d codec", s.Snapshot.Version)
+		return nil, fmt.Errorf("Error decoding signed snapshot %d codec", version)
+	}
+	if s.Snapshot == nil {
+		return nil, fmt.Errorf("Snapshot store answer for version %d carries no snapshot", version)
 	}
 	return &s, nil
 }
